@@ -283,6 +283,16 @@ theorem SInv.preserved' (hc : c.Good) (wf : TxnWF t) {y : Sys} (h : SInv c t y) 
       exact ⟨h.store g mono _ rfl h.pc rfl rfl, mono⟩
     · exact ⟨h, SMono.refl _ _⟩
 
+  | foreign k fts ttl v =>
+    simp only [step]
+    obtain ⟨g, mono⟩ := foreign_ginv wf y.store h.g k fts ttl v
+    exact ⟨h.store g mono _ rfl h.pc rfl rfl, mono⟩
+
+  | foreignAbort k fts =>
+    simp only [step]
+    obtain ⟨g, mono⟩ := foreignAbort_ginv wf y.store h.g k fts
+    exact ⟨h.store g mono _ rfl h.pc rfl rfl, mono⟩
+
 theorem SInv.preserved (hc : c.Good) (wf : TxnWF t) {y : Sys} (h : SInv c t y) (op : Op) : SInv c t (step c t y op) :=
   (h.preserved' hc wf op).1
 
